@@ -27,7 +27,8 @@ RULE = ("a case = one scene (24-40 x 40-64 pair, integer radiometry inside the e
         "local pipeline (matching cost sad/ssd/census/zncc, window 1/3/5, subpix 1/2/4; optional cbca; wta with "
         "invalid_disparity -9999 or NaN; optional vfit/quadratic refinement; optional median 3/5 or bilateral filter; "
         "optional cross-checking, optional median after it), an integer interval with |d| <= 4, compared with 2 (quick) "
-        "crops at random offsets and sizes (offsets of both parities are forced) and with the vertical flip.  Every "
+        "or 4 crops; 1 (quick) / 12 scenes of 103-111 x 104-125 pixels straddle the 100- and 50-pixel blocks of wta, median, bilateral; "
+        "crops at random offsets and sizes (offsets of both parities are forced; every other crop keeps the row/col coordinates of the full image, as a ROI read does, the others restart at 0) and with the vertical flip.  Every "
         "measure, cbca, both filters, both refinements and cross-checking are forced to occur.  A case is "
         "non-trivial when the compared interior holds >= 20 pixels, >= 2 distinct disparities and (with cross-checking) "
         ">= 1 flagged pixel; distinct by (pipeline, scene digest, crop)")
@@ -139,12 +140,19 @@ def cbca_exact(info, maxv, rows, cols):
 # ---------------------------------------------------------------- running
 
 
-def run_pipeline(left, right, ml, mr, itv, pipeline):
+def run_pipeline(left, right, ml, mr, itv, pipeline, origin=(0, 0)):
+    """origin: first row / column coordinate of the datasets (a dataset read through a ROI keeps the
+    coordinates of the full image: img_tools.create_dataset_from_inputs)"""
     import pandora
     from pandora.state_machine import PandoraMachine
 
     L = pu.image_dataset(left, disp=tuple(itv), mask=ml)
     R = pu.image_dataset(right, disp=None, mask=mr)
+    if tuple(origin) != (0, 0):
+        rows, cols = left.shape
+        rc = {"row": np.arange(origin[0], origin[0] + rows), "col": np.arange(origin[1], origin[1] + cols)}
+        L = L.assign_coords(**rc)
+        R = R.assign_coords(**rc)
     cfg = {"pipeline": {name: dict(c) for name, c in pipeline}}
     l, r = pandora.run(PandoraMachine(), L, R, cfg)
     out = {"ld": np.asarray(l["disparity_map"].values), "lf": np.asarray(l["validity_mask"].values)}
@@ -203,6 +211,18 @@ def check_case(ctx, model, case):
         ctx.count("whole_run_raised_" + pu.exc_class(exc))
         ctx.notes.append(f"whole run raised {type(exc).__name__}: {str(exc)[:100]} on {steps}")
         ctx.case(None)
+        # a tile of a scene that cannot be processed whole: if the tile is processed, the two framings disagree
+        for crop in case["crops"]:
+            r0, c0, h, w = crop[:4]
+            cl, cr, cml, cmr = crop_arrays(arr, (slice(r0, r0 + h), slice(c0, c0 + w)))
+            try:
+                run_pipeline(cl, cr, cml, cmr, itv, pipeline)
+            except Exception:  # pylint: disable=broad-except
+                continue
+            ctx.violation("whole_raises_crop_runs_" + pu.exc_class(exc),
+                          f"pipeline {steps} raises {type(exc).__name__} ({str(exc)[:80]}) on the whole {rows}x{cols} scene "
+                          f"but runs on its crop {crop[:4]}", dict(case, crops=[crop]))
+            break
         return
     ctx.traces += 1
     nb = px_ok(whole, itv)
@@ -225,17 +245,20 @@ def check_case(ctx, model, case):
                            f"({extra})", rep)
 
     # ---- crops
-    for crop in case["crops"]:
-        r0, c0, h, w = crop
+    for icrop, crop in enumerate(case["crops"]):
+        r0, c0, h, w = crop[:4]
+        # every other crop keeps the coordinates of the full image (as a ROI read does), the others restart at 0
+        absolute = bool(crop[4]) if len(crop) > 4 else icrop % 2 == 1
         sl = (slice(r0, r0 + h), slice(c0, c0 + w))
         cl, cr, cml, cmr = crop_arrays(arr, sl)
         try:
-            part = run_pipeline(cl, cr, cml, cmr, itv, pipeline)
+            part = run_pipeline(cl, cr, cml, cmr, itv, pipeline, origin=(r0, c0) if absolute else (0, 0))
         except Exception as exc:  # pylint: disable=broad-except
             ctx.count("crop_run_raised_" + pu.exc_class(exc))
             ctx.violation("crop_raises_" + pu.exc_class(exc),
                           f"pipeline {steps} runs on the whole {rows}x{cols} scene but raises {type(exc).__name__} "
-                          f"({str(exc)[:80]}) on the crop {crop}", dict(case, crops=[crop]))
+                          f"({str(exc)[:80]}) on the crop {crop} (full-image coordinates: {absolute})",
+                          dict(case, crops=[[r0, c0, h, w, int(absolute)]]))
             continue
         ctx.traces += 1
         isl = (slice(rr, h - rr), slice(rl, w - rm))
@@ -248,17 +271,19 @@ def check_case(ctx, model, case):
             a, b = whole[name][wsl], part[name][isl]
             if not same(a, b):
                 ok = False
-                report("crop", name, first_diff(a, b), {"crop": crop, "margin": [rr, rl, rm]})
+                report("crop_abs_coords" if absolute else "crop", name, first_diff(a, b),
+                       {"crop": [r0, c0, h, w, int(absolute)], "margin": [rr, rl, rm]})
         ctx.count("crops_compared")
+        ctx.count("crops_with_full_image_coordinates" if absolute else "crops_with_coordinates_from_0")
         ctx.count("interior_pixels_compared", npx)
         ctx.count("crop_offset_parity_%d%d" % (r0 % 2, c0 % 2))
         dl = whole["ld"][wsl]
         nd = len(np.unique(dl[~np.isnan(dl)]))
         flagged = int((whole["lf"][wsl] != 0).sum())
         nontrivial = npx >= 20 and nd >= 2 and (not info["xcheck"] or flagged >= 1)
-        ctx.case((tuple(steps), info["measure"], digest, tuple(crop)) if nontrivial and ok else None)
+        ctx.case((tuple(steps), info["measure"], digest, tuple(crop[:4])) if nontrivial and ok else None)
         ctx.sample({"steps": steps, "measure": info["measure"], "window": info["window"], "subpix": info["subpix"],
-                    "scene": [rows, cols], "interval": itv, "crop": crop, "margin_rows_left_right": [rr, rl, rm],
+                    "scene": [rows, cols], "interval": itv, "crop": crop[:4], "full_image_coordinates": absolute, "margin_rows_left_right": [rr, rl, rm],
                     "interior_pixels": npx, "distinct_disparities": nd, "flagged": flagged})
     # ---- vertical flip
     if case.get("flip"):
@@ -293,6 +318,8 @@ def gen_case(rng, model, force, ncrops):
     rr, rl, rm = M
     rows = rng.randrange(max(24, 2 * rr + 10), max(24, 2 * rr + 10) + 14)
     cols = rng.randrange(max(40, rl + rm + 14), max(40, rl + rm + 14) + 20)
+    if force.get("big"):     # straddles the 100-pixel (50 for bilateral) blocks of wta / median / bilateral
+        rows, cols = rng.randrange(103, 112), rng.randrange(104, 126)
     maxv = rng.choice([exact_maxv(info), min(255, exact_maxv(info))])
     if force.get("big_radiometry"):
         maxv = 4000
@@ -328,6 +355,8 @@ FORCED = [
     {"measure": "census", "cbca": True, "validation": True},
     {"measure": "sad", "filter": "bilateral", "validation": True, "cbca": False},
 ]
+BIG = [{"measure": "sad", "filter": "median", "cbca": False, "big": True, "validation": False},
+       {"measure": "census", "filter": "bilateral", "cbca": False, "big": True, "validation": True}]
 
 
 def run(ctx):
@@ -340,8 +369,11 @@ def run(ctx):
     ctx.stats["example_radii"] = {"data_cone": D, "margin": M}
     if ctx.replay_case is not None:
         case = dict(ctx.replay_case)
-        if "crop" in case and "crops" not in case:
+        if "crop" in case:          # a failing crop: replay that crop only
             case["crops"] = [case["crop"]]
+            case["flip"] = False
+        elif case.get("flip") is True and "margin" not in case and "crop" not in case and ctx.replay_path and "flip" in ctx.replay_path:
+            case["crops"] = []
         check_case(ctx, model, case)
         return
     # corpus first: inputs that once showed a defect
@@ -352,9 +384,14 @@ def run(ctx):
         with open(path) as fh:
             check_case(ctx, model, json.load(fh))
         ctx.count("corpus_cases")
-    n_scenes, ncrops = (20, 2) if ctx.tier == "quick" else (400, 4)
-    for i in range(n_scenes):
-        force = dict(FORCED[i % len(FORCED)]) if i < 2 * len(FORCED) or i % 3 == 0 else {}
+    n_scenes, ncrops = (18, 2) if ctx.tier == "quick" else (400, 4)
+    n_big = 1 if ctx.tier == "quick" else 12
+    for i in range(n_scenes + n_big):
+        if i >= n_scenes:
+            force = dict(BIG[(i - n_scenes) % len(BIG)])
+            ctx.count("scenes_larger_than_the_100_pixel_blocks")
+        else:
+            force = dict(FORCED[i % len(FORCED)]) if i < 2 * len(FORCED) or i % 3 == 0 else {}
         case = gen_case(rng, model, force, ncrops)
         for k in ("measure", "cbca", "xcheck"):
             ctx.count(f"{k}_{case['info'][k]}")
